@@ -11,6 +11,10 @@ def tasks(run):
     for i in range(n):
         hist = [(rng.choice(names), rng.randrange(1000), rng.choice(['build', 'solve', 'fail', 'abandon'])) for _ in range(rng.choice([1, 2, 3]))]
         out.append(('history', (names[i % len(names)], 100 + i // len(names), hist)))
+    # the composite template whose last addition brings several leaf functions at once (order of new dict keys), after address-shifting histories
+    for i in range(6 if run.tier == 'quick' else 24):
+        hist = [(rng.choice(names), rng.randrange(1000), rng.choice(['build', 'abandon', 'build'])) for _ in range(rng.choice([2, 3, 4]))]
+        out.append(('history', ('T_composite', 2 + 3 * i, hist)))
     out += [('verbosity', (names[i], 7)) for i in range(0, len(names), 3)]
     out += [('fresh_process', ('T_gd_ssc', 3, 'objects')), ('fresh_process', ('T_blocks', 4, 'objects')), ('fresh_process', ('T_quadratic', 5, 'model'))]
     return out
